@@ -81,14 +81,19 @@ pub fn env_name(key: &str) -> String {
     format!("ROUGHENOUGH_{}", key.to_uppercase())
 }
 
-/// a UDP (and optionally TCP) port that is free right now on 127.0.0.1
+pub static PORT_SHARD: std::sync::atomic::AtomicU32 = std::sync::atomic::AtomicU32::new(0);
+static PORT_CTR: std::sync::atomic::AtomicU32 = std::sync::atomic::AtomicU32::new(0);
+
+/// A UDP (and optionally TCP) port that is free right now on 127.0.0.1, taken from a range
+/// private to this shard (below the kernel's ephemeral range), so that two servers started by
+/// different shards can never end up sharing a port through SO_REUSEPORT.
 pub fn free_port(also_tcp: bool) -> u16 {
-    for _ in 0..50 {
-        if let Ok(s) = UdpSocket::bind("127.0.0.1:0") {
-            let p = s.local_addr().unwrap().port();
-            if !also_tcp || std::net::TcpListener::bind(("127.0.0.1", p)).is_ok() {
-                return p;
-            }
+    let shard = PORT_SHARD.load(std::sync::atomic::Ordering::Relaxed) % 20;
+    for _ in 0..1000 {
+        let c = PORT_CTR.fetch_add(1, std::sync::atomic::Ordering::Relaxed) % 1000;
+        let p = (10_000 + shard * 1000 + c) as u16;
+        if UdpSocket::bind(("127.0.0.1", p)).is_ok() && (!also_tcp || std::net::TcpListener::bind(("127.0.0.1", p)).is_ok()) {
+            return p;
         }
     }
     0
